@@ -1,15 +1,15 @@
 SPECIFICATION Spec
 CONSTANTS
  NH = 2
- K = {0,1,8,9,16}
+ K = {0,1,4,5}
  V = {1}
  MaxOps = 5
- NB0 = 1
+ NB0 = 2
  MapOps = TRUE
  HeadBug = FALSE
  EqLockstep = FALSE
  AllowSharedRehash = FALSE
- Sizes = {}
+ Sizes = {0,5}
  ZeroBins = FALSE
  SelfAssignClears = FALSE
 VIEW View
